@@ -425,4 +425,16 @@ theorem subSign_ref : SubSign refFloatOps where
     · omega
     · split <;> omega
 
+/-- `Float_Cmp` as translated, for operations whose difference has the sign of the key order -/
+theorem floatCmp_of_subSign (ops : FloatOps UInt64) (hs : SubSign ops) (a b : UInt64) (na : fIsNaN a = false) (nb : fIsNaN b = false) :
+    (floatCmp ops a b < 0 ↔ fkey a < fkey b) ∧ (floatCmp ops a b = 0 ↔ fkey a = fkey b) ∧
+    (0 < floatCmp ops a b ↔ fkey b < fkey a) := by
+  have hp := hs.pos a b na nb
+  have hn := hs.neg a b na nb
+  simp only [floatCmp, CelloGen.Cmp.floatCmp]
+  refine ⟨?_, ?_, ?_⟩ <;> (repeat' split) <;>
+    (try simp only [BitVec.reduceSub, BitVec.reduceAdd, BitVec.reduceNeg, BitVec.reduceToInt, true_iff, false_iff,
+       iff_true, iff_false, Int.reduceNeg, Int.reduceLT, Int.reduceEq, Int.reduceNegSucc]) <;>
+    (try simp_all) <;> (try omega)
+
 end Cello.Cmp
